@@ -899,7 +899,8 @@ class OpAdd:
         _, perm = _align_other(A, env.slots[b].ref)
         if perm:
             o['cond'] = 'labels-permuted'
-        elif a == b and isinstance(alpha, complex) and alpha.imag != 0:
+        elif (a == b or env.slots[a].group == env.slots[b].group) and isinstance(alpha, complex) and alpha.imag != 0:
+            # other is self or a shallow copy sharing the blocks of self
             o['cond'] = 'same-operand+complex-prefactor'
         return o
 
@@ -2253,6 +2254,8 @@ class OpConcat:
         if sum(env.slots[b].ref.dense.size for b in arrs) > MAXSIZE:
             return None
         o = {'op': 'concatenate', 'arrays': arrs, 'axis': axarg(rng, A, i), 'copy': rng.random() < 0.7}
+        if len(set(arrs)) != len(arrs):
+            o['copy'] = True        # copy=False with a repeated operand makes two blocks of the result one ndarray (unspecified aliasing)
         if malformed:
             o['malformed'] = 'incompatible-operands'
         return o
